@@ -22,7 +22,7 @@
    checkpoints of every kind, the follower's file is the primary's LOGICAL database - the last
    committed version of a page in the primary's log, else the primary's file. *)
 From Coq Require Import NArith List Bool.
-Require Import LF.Model.PageDB LF.Model.Repl LF.Proofs.ChainProofs LF.Proofs.ReplProofs LF.Proofs.ChecksumProofs LF.Proofs.HistoryProofs LF.Proofs.WalHistoryProofs LF.Proofs.WalCheckpointProofs LF.Proofs.SqlCheckpointProofs LF.Proofs.ApplyHistoryProofs LF.Proofs.ComposeProofs LF.Proofs.FollowProofs LF.Proofs.FollowWalProofs LF.Proofs.FollowGProofs LF.Proofs.JoinerProofs.
+Require Import LF.Model.PageDB LF.Model.Repl LF.Proofs.ChainProofs LF.Proofs.ReplProofs LF.Proofs.ChecksumProofs LF.Proofs.HistoryProofs LF.Proofs.WalHistoryProofs LF.Proofs.WalCheckpointProofs LF.Proofs.SqlCheckpointProofs LF.Proofs.ApplyHistoryProofs LF.Proofs.ComposeProofs LF.Proofs.FollowProofs LF.Proofs.FollowWalProofs LF.Proofs.FollowGProofs LF.Proofs.FollowRestartProofs LF.Proofs.JoinerProofs.
 Import ListNotations.
 Local Open Scope N_scope.
 
@@ -237,3 +237,43 @@ Example C01_resnapshot_nonvacuous :
     | None => False
     end.
 Proof. exact resnapshot_example. Qed.
+
+(* ... the primary's own restarts included: [gs] is any history of C04_history ([wf_gsteps], nothing excluded).  A restart
+   publishes nothing; that it leaves the primary's logical database and position alone rests on one more invariant, kept
+   by every step: the newest transaction file names the node's position and size and its pages are the logical
+   database's ([LastAgree]), so re-applying it after the checkpoint inside Open changes no page. *)
+Theorem C01_follower_history_all : forall lock gs sP sR,
+  1 <= lock -> wf_gsteps (init lock) gs -> followg (init lock) (init lock) (fun _ => 0) gs = Some (sP, sR) ->
+  txid sR = txid sP /\ chk sR = chk sP /\ pageN sR = pageN sP /\
+  (forall p, 1 <= p <= pageN sP -> p <> lock -> fpg sR p = lpage sP p).
+Proof. exact follower_identical_all. Qed.
+Print Assumptions C01_follower_history_all.
+
+(* Non-vacuity: the history of C04_history_nonvacuous - the primary restarts in rollback-journal mode and again in WAL mode with
+   its log in place *)
+Example C01_follower_history_all_nonvacuous :
+  let pg h n := mkPg (fl h) n false in
+  let pw h n := mkPg (fl h) n true in
+  let x3 a b c := fl (N.lxor (N.lxor (fl a) (fl b)) (fl c)) in
+  let gs := [GJ (HTx [] [AWrite 1 (pg 11 2); AWrite 2 (pg 19 0); AFail 2; AWrite 2 (pg 12 0)] 2);
+             GRestart;
+             GSwitch [] [AWrite 1 (pw 13 2)] 2;
+             GW (W2Commit [(1, pw 14 3); (3, pw 33 0); (2, pw 23 0)] 3);
+             GRestart;
+             GW (W2Commit [(2, pw 24 0)] 3);
+             GW W2SqlRestart;
+             GLeave (pg 15 3) 3;
+             GJ (HTx [] [AWrite 3 (pg 36 0)] 3);
+             GRecv (mkLtx 7 7 (x3 15 24 36) (x3 15 27 36) 3 [(2, pg 27 0)]);
+             GRecv (mkLtx 9 9 0 0 1 []);
+             GForward (mkLtx 8 8 0 0 1 []) true;
+             GForward (mkLtx 8 8 (x3 15 27 36) (x3 18 27 36) 3 [(1, pg 18 3)]) true;
+             GDrop;
+             GImport [(1, pg 41 2); (2, pg 42 0)] 2] in
+  wf_gsteps (init 2097153) gs /\
+  match followg (init 2097153) (init 2097153) (fun _ => 0) gs with
+  | Some (sP, sR) => (txid sR, pageN sR, chk sR =? chk sP, map (fpg sR) [1; 2], map (lpage sP) [1; 2], length (ltxdir sR))
+                     = (10, 2, true, [pg 41 2; pg 42 0], [pg 41 2; pg 42 0], 10%nat)
+  | None => False
+  end.
+Proof. exact follower_identical_all_example. Qed.
